@@ -68,7 +68,9 @@ theorem stepRequire_constrs (st : State) (task res dynamic d e) : (stepRequire s
       · split <;> rfl
     · split
       · rfl
-      · exact requireSelect_constrs _ _ _
+      · split
+        · rfl
+        · exact requireSelect_constrs _ _ _
     · split
       · rfl
       · rename_i cw _
